@@ -33,6 +33,8 @@ impl<'a> Bytes<'a> {
 
     #[inline]
     pub fn peek(&self) -> Option<u8> {
+        #[cfg(httparse_verif)]
+        { crate::_verif::op(); crate::_verif::bump(&crate::_verif::READS, 1); }
         if self.cursor < self.end {
             // SAFETY:  bounds checked
             Some(unsafe { *self.cursor })
@@ -51,6 +53,8 @@ impl<'a> Bytes<'a> {
     #[inline]
     pub unsafe fn peek_ahead(&self, n: usize) -> Option<u8> {
         debug_assert!(n <= self.len());
+        #[cfg(httparse_verif)]
+        { crate::_verif::op(); crate::_verif::bump(&crate::_verif::READS, 1); }
         // SAFETY: by preconditions
         let p = unsafe { self.cursor.add(n) };
         if p < self.end {
@@ -67,6 +71,8 @@ impl<'a> Bytes<'a> {
         // TODO: once we bump MSRV, use const generics to allow only [u8; N] reads
         // TODO: drop `n` arg in favour of const
         // let n = core::mem::size_of::<U>();
+        #[cfg(httparse_verif)]
+        { crate::_verif::op(); crate::_verif::bump(&crate::_verif::BLOCKS, 1); }
         self.as_ref().get(..n)?.try_into().ok()
     }
 
@@ -87,6 +93,8 @@ impl<'a> Bytes<'a> {
     /// Caller must ensure that Bytes hasn't been advanced/bumped by more than [`Bytes::len()`].
     #[inline]
     pub unsafe fn advance(&mut self, n: usize) {
+        #[cfg(httparse_verif)]
+        { crate::_verif::op(); crate::_verif::bump(&crate::_verif::TRAVEL, n as u64); }
         self.cursor = self.cursor.add(n);
         debug_assert!(self.cursor <= self.end, "overflow");
     }
@@ -159,6 +167,15 @@ impl<'a> Bytes<'a> {
     pub unsafe fn set_cursor(&mut self, ptr: *const u8) {
         debug_assert!(ptr >= self.start);
         debug_assert!(ptr <= self.end);
+        #[cfg(httparse_verif)]
+        {
+            crate::_verif::op();
+            if ptr < self.cursor {
+                crate::_verif::bump(&crate::_verif::BACKWARD, 1);
+            } else {
+                crate::_verif::bump(&crate::_verif::TRAVEL, ptr as u64 - self.cursor as u64);
+            }
+        }
         self.cursor = ptr;
     }
 }
@@ -185,6 +202,8 @@ impl Iterator for Bytes<'_> {
 
     #[inline]
     fn next(&mut self) -> Option<u8> {
+        #[cfg(httparse_verif)]
+        { crate::_verif::op(); crate::_verif::bump(&crate::_verif::READS, 1); }
         if self.cursor < self.end {
             // SAFETY: bounds checked dereference
             unsafe {
